@@ -23,8 +23,18 @@ def controls_table():
         neg = [c for c in ctl if not c['positive'] and c['applied']]
         rows.append(f"| {e['property_id']} | {len(ctl)} | {sum(1 for c in pos if c['ok'])}/{len(pos)} | {sum(1 for c in neg if c['ok'])}/{len(neg)} | {sum(1 for c in ctl if not c['applied'])} | {', '.join(c['name'] for c in ctl if not c['ok']) or '—'} |")
     return "\n".join(rows)
+def rules_block():
+    out = []
+    for f in sorted(glob.glob('/verif/evidence/C*.json')):
+        e = json.load(open(f))
+        c = e['coverage']
+        per = c.get('per_rule', {})
+        out.append(f"**{e['property_id']}** ({c.get('obligations', '?')} obligations, {c.get('functions_analysed', '?')} functions on the last run). {c['explanation']}\n")
+        if per:
+            out.append("Obligations per rule: " + ", ".join(f"{k} {v.get('discharged', v) if isinstance(v, dict) else v}" for k, v in sorted(per.items())) + ".\n")
+    return "\n".join(out)
 s = open('/verif/DESIGN.md').read()
-for name, fn in (("seeds", seed_table), ("controls", controls_table)):
+for name, fn in (("seeds", seed_table), ("controls", controls_table), ("rules", rules_block)):
     b, e = f"<!-- BEGIN {name} -->", f"<!-- END {name} -->"
     if b in s and e in s:
         s = s[:s.index(b) + len(b)] + "\n" + fn() + "\n" + s[s.index(e):]
